@@ -122,6 +122,41 @@ func Run(r *ev.Run, replay string) {
 					}
 				}
 			}
+			// The infinity sign, which the set notation uses in bounds: where a
+			// system's Parse takes it inside a version (Maven reads it as a
+			// number), that version has a canonical form like any other.
+			{
+				rng := r.Rand(sg.name + "/infinity")
+				for i := 0; i < n/40; i++ {
+					s := sg.gen(rng)
+					var runs [][2]int
+					for a := 0; a < len(s); {
+						if s[a] < '0' || s[a] > '9' {
+							a++
+							continue
+						}
+						b := a
+						for b < len(s) && s[b] >= '0' && s[b] <= '9' {
+							b++
+						}
+						runs = append(runs, [2]int{a, b})
+						a = b
+					}
+					switch {
+					case len(runs) == 0 || rng.Intn(4) == 0:
+						s += gen.Pick(rng, ".∞", "-∞", "∞", "-x∞")
+					default:
+						x := runs[rng.Intn(len(runs))]
+						s = s[:x[0]] + "∞" + s[x[1]:]
+					}
+					if !seen[s] {
+						seen[s] = true
+						if one(r, sg, s, groups) {
+							r.Count("infinity_sign_versions:"+sg.name, 1)
+						}
+					}
+				}
+			}
 			// Many components: counts around the edges of 8-, 15- and 16-bit
 			// counters, for the systems that take more than three numbers.
 			for _, k := range []int{255, 256, 257, 32766, 32767, 32768, 40000, 65535, 65536, 65539} {
